@@ -93,9 +93,9 @@ func onlyTiesFlipped(w *seqx.World, old, cur []string) bool {
 }
 
 func c05Searches(p *run.Part, tier string) []*seqx.Search {
-	depth, pd := 5, 2
+	depth, pd := 6, 2
 	if tier == "thorough" {
-		depth, pd = 7, 3
+		depth, pd = 8, 3
 	}
 	dl := Budget(tier)
 	mk := func(cfg *seqx.Config, prefix string, d int) *seqx.Search {
